@@ -334,6 +334,13 @@ func (e *Engine) modLocOf(ctx *EvalCtx, x *Expr, c *Contract) ([]modLoc, bool) {
 				for i := 0; i < stt.NumFields(); i++ {
 					if stt.Field(i).Name() == x.Name {
 						pt, _ := e.ptrTerm(v)
+						if mt, isMap := stt.Field(i).Type().Underlying().(*types.Map); isMap {
+							// a map-typed field names the map's contents (the field itself keeps pointing to the same map)
+							fv, err := e.evalSelect(ctx, v, x.Name)
+							if err == nil {
+								return []modLoc{{kind: "map", base: fv.S, mapT: mt}}, true
+							}
+						}
 						return []modLoc{{kind: "field", base: pt, rootT: p.Elem(), field: i}}, true
 					}
 				}
